@@ -231,6 +231,15 @@ def gen_run(rng, pool):
             ticks.append(c + rng.choice((-w, w, 0, -w - 1, w - 1)))   # on the bounds of the central range
     in0 = [rng.randint(0, 10 ** rng.randint(6, 24)) for _ in range(n)]
     in1 = [rng.randint(0, 10 ** rng.randint(6, 24)) for _ in range(n)]
+    for k in range(n):
+        # one-directional bars: only one of the two tokens flowed in (or none did); the other token's fee is still owed
+        r = rng.random()
+        if r < 0.12:
+            in0[k] = 0
+        elif r < 0.24:
+            in1[k] = 0
+        elif r < 0.28:
+            in0[k] = in1[k] = 0
     liqs = [rng.randint(10 ** 10, 10 ** 22) for _ in range(n)]
     ranges = [(c - w, c + w), (c - 3 * w, c - w), (c + w, c + 4 * w), (c - 6 * w, c + 6 * w), (c, c + sp)]
 
